@@ -894,6 +894,9 @@ def run(ctx: Ctx) -> None:
             outs.append(o)
     ctx.compare("Evaluator", cases, outs, what="engine outputs (tick, value)")
 
+    from . import datapath  # full-stack stage: the same property through the real sourcing -> resampling -> formula stack
+    datapath.run_stage(ctx, {"C06-single-ts"}, n_quick=40, n_thorough=600)
+
 
 def replay(ctx: Ctx, data: dict) -> None:
     python_flags()
